@@ -241,6 +241,19 @@ fn forgeries(ctx: &mut Ctx, smp: &Sample, p: &mut Prng, base_idx: &mut u64) {
         i2.push(b'x');
         probe(ctx, smp, &smp.ks, &i2, &smp.msg, &smp.h, &s_lib, Some(&smp.s), "id_changed");
     }
+    if smp.id.len() > 8192 {
+        // identities that agree on their first 8191 / 8192 bytes are different identities
+        for (k, cut) in [8191usize, 8192, smp.id.len() - 1].iter().enumerate() {
+            if mine(ctx) {
+                let i2 = smp.id[..*cut].to_vec();
+                probe(ctx, smp, &smp.ks, &i2, &smp.msg, &smp.h, &s_lib, Some(&smp.s), "id_changed_beyond_8191_bytes");
+                let mut i3 = smp.id.clone();
+                let last = i3.len() - 1 - k;
+                i3[last] ^= 0x20;
+                probe(ctx, smp, &smp.ks, &i3, &smp.msg, &smp.h, &s_lib, Some(&smp.s), "id_changed_beyond_8191_bytes");
+            }
+        }
+    }
     if mine(ctx) {
         let ks2 = rand_scalar(p, &(&pr.n - 1u32));
         probe(ctx, smp, &ks2, &smp.id, &smp.msg, &smp.h, &s_lib, Some(&smp.s), "master_key_changed");
@@ -251,7 +264,7 @@ pub fn run(ctx: &mut Ctx) {
     for (n, ok) in r9::selftest(false) {
         ctx.selftest(&n, ok);
     }
-    ctx.require(&["annex_kat", "fixed_r_exact", "free_r", "ref_made_accepted", "bitflip_h", "bitflip_h_ge_N", "bitflip_S", "h=0", "h=N-1", "h=N", "h=2^256-1", "h+N_alias", "S=-S", "S=offcurve_y_plus_1", "S=(0,0)", "S=infinity", "S_rerandomised_Z", "msg_changed", "id_changed", "master_key_changed", "msg_empty", "id_empty", "ks=H1(id)_doubling_in_verify", "verifier_has_public_key_only", "interleaved_master_keys_same_id"]);
+    ctx.require(&["annex_kat", "fixed_r_exact", "free_r", "ref_made_accepted", "bitflip_h", "bitflip_h_ge_N", "bitflip_S", "h=0", "h=N-1", "h=N", "h=2^256-1", "h+N_alias", "S=-S", "S=offcurve_y_plus_1", "S=(0,0)", "S=infinity", "S_rerandomised_Z", "msg_changed", "id_changed", "master_key_changed", "msg_empty", "id_empty", "ks=H1(id)_doubling_in_verify", "verifier_has_public_key_only", "interleaved_master_keys_same_id", "id_beyond_2^16_bits", "msg_beyond_2^16_bits", "id_changed_beyond_8191_bytes"]);
     let pr = r9::params();
     // --- Annex example
     if ctx.shard == 0 {
@@ -270,10 +283,18 @@ pub fn run(ctx: &mut Ctx) {
         }
         let mut p = Prng::new(sub, "c");
         let ks = scalar_for(&mut p, i % 24);
-        let idlen = if i % 9 == 0 { 0 } else { p.range(1, 64) };
+        // identities / messages beyond the 2^16-bit and 2^16-byte thresholds (length fields, counters, truncating casts)
+        const LONG: [usize; 8] = [8185, 8186, 8191, 8192, 8193, 20000, 65536, 70001];
+        let idlen = if i % 9 == 0 { 0 } else if i % 16 == 5 { LONG[((i / 16) % 8) as usize] } else { p.range(1, 64) };
         let id = p.bytes(idlen);
-        let mlen = if i % 7 == 0 { 0 } else if i % 5 == 0 { p.range(200, 1024) } else { p.range(1, 100) };
+        let mlen = if i % 7 == 0 { 0 } else if i % 16 == 13 { LONG[((i / 16 + 3) % 8) as usize] } else if i % 5 == 0 { p.range(200, 1024) } else { p.range(1, 100) };
         let msg = p.bytes(mlen);
+        if idlen >= 8185 {
+            ctx.class("id_beyond_2^16_bits");
+        }
+        if mlen >= 8185 {
+            ctx.class("msg_beyond_2^16_bits");
+        }
         if idlen == 0 {
             ctx.class("id_empty");
         }
@@ -354,7 +375,7 @@ pub fn run(ctx: &mut Ctx) {
     let mut idx = 0u64;
     for i in 0..nf {
         let ks = scalar_for(&mut prng, 100);
-        let idl = prng.range(1, 20);
+        let idl = if i % 2 == 1 { 8192 + prng.range(1, 200) } else { prng.range(1, 20) };
         let id = prng.bytes(idl);
         let ml = prng.range(0, 60);
         let msg = prng.bytes(ml);
